@@ -5,15 +5,14 @@ import json, subprocess
 
 IDS = [json.loads(l)['id'] for l in open('/verif/properties.jsonl')]
 
-# property -> (technique, level text, level note, design ref)
-CLAIMS = {
- 'C04': ("typestate over condition variables on SSA (predicate write => Broadcast; Broadcast holds the cond's locker), path-sensitive lock-state simulation with inlining",
-         "Necessary conditions of 'no state change is lost to the cleaner', checked on every path and calling context: every write to Buffer.cond's predicate fields is broadcast before the lock is released; every Broadcast (incl. the cooldown timer's re-broadcast) holds Buffer.mutex; the cooldown cells share one lock. Not a proof of the delay bound.",
-         "go/types + go/ssa; modelled sync semantics; time-related clauses (the bound itself) are not decided", "DESIGN.md 4/C04"),
- 'C11': ("lockset (guarded-by) analysis over SSA with path-sensitive lock simulation and in-package inlining; field-class, escape and captured-cell audits",
-         "Lockset discipline (a sufficient condition for race freedom on the tabled fields) for every shared field and captured cell in every calling context, plus who-may-write audits for init-once fields; exceptions are five named symbols with happens-before reasons.",
-         "go/types + go/ssa; the guarded-by table and five reasoned exceptions in tool/internal/props/tables.go; user callbacks not followed", "DESIGN.md 4/C11"),
-}
+# claims come from the checker's own registry (bbcheck list): technique, what is decided, what is not
+REG = {r['id']: r for r in json.loads(subprocess.run(['/verif/bin/bbcheck', 'list'], capture_output=True, text=True, check=True).stdout)}
+CLAIMS = {}
+for i, r in REG.items():
+    CLAIMS[i] = (r['technique'],
+                 "Necessary structural conditions of the property, decided on every path and calling context of the SSA program: " + r['explanation'] + " NOT decided: " + r['not_decided'],
+                 "trusted: go/types + go/ssa (x/tools v0.29.0), the modelled semantics of sync/context/time/reflect, the documented caller contracts, and the reasoned exception tables in tool/internal/props; the composition of the checked premises into the behavioural statement is a manual argument (DESIGN.md section 4)",
+                 "DESIGN.md section 4/" + i)
 
 NA_REASON = "interim: the rules for this property are not built yet (DESIGN.md section 9 build order); no claim is made until they are validated"
 
